@@ -71,16 +71,20 @@ impl Point {
         let o = self.options(order);
         match self.target {
             "trait" => o.join(", "),
-            _ => std::iter::once("pub TheTrait".to_string()).chain(o).collect::<Vec<_>>().join(", "),
+            _ => std::iter::once(format!("{}TheTrait", Self::vis(order))).chain(o).collect::<Vec<_>>().join(", "),
         }
     }
-    pub fn item(&self) -> &'static str {
+    /// the trait's visibility rotates through the lattice: it must not influence which mocks exist or how they are gated
+    pub fn vis(order: usize) -> &'static str {
+        ["pub ", "pub(crate) ", ""][order % 3]
+    }
+    pub fn item(&self, order: usize) -> String {
         match self.target {
-            "fn" => "pub fn the_fn(_deps: &impl ::core::any::Any, x: i32) -> i32 { x }",
-            "mod" => "pub mod m { pub fn the_fn(_deps: &impl ::core::any::Any, x: i32) -> i32 { x } }",
+            "fn" => "pub fn the_fn(_deps: &impl ::core::any::Any, x: i32) -> i32 { x }".to_string(),
+            "mod" => "pub mod m { pub fn the_fn(_deps: &impl ::core::any::Any, x: i32) -> i32 { x } }".to_string(),
             // a concrete dependency: the generated trait carries a *nested* entrait invocation of its own
-            "fn_concrete" => "pub fn the_fn(_deps: &Conf, x: i32) -> i32 { x }",
-            _ => "pub trait TheTrait { fn the_fn(&self, x: i32) -> i32; }",
+            "fn_concrete" => "pub fn the_fn(_deps: &Conf, x: i32) -> i32 { x }".to_string(),
+            _ => format!("{}trait TheTrait {{ fn the_fn(&self, x: i32) -> i32; }}", Self::vis(order)),
         }
     }
     /// the macro as the facade would select it
@@ -223,19 +227,20 @@ fn e1_leg(ctx: &mut Ctx, points: &[Point]) -> bool {
         for order in 0..3usize {
             ctx.count_eval();
             let attr = p.attr(i + order);
-            match e1::outcome(p.e1_macro(), &attr, p.item()) {
+            let item = p.item(i + order);
+            match e1::outcome(p.e1_macro(), &attr, &item) {
                 Ok(Outcome::Accepted(_, ts)) => {
                     if let Err(e) = judge_tokens(p, ts) {
                         ctx.violation(
                             &format!("{e} -- {}", p.describe()),
-                            &json!({"engine": "E1", "macro": p.e1_macro(), "attr": attr, "item": p.item(), "point": format!("{p:?}"),
+                            &json!({"engine": "E1", "macro": p.e1_macro(), "attr": attr, "item": item, "point": format!("{p:?}"),
                                     "expect": {"unimock": p.expect().unimock_emitted, "mockall": p.expect().mockall_emitted, "exported": p.expect().exported}}),
                         );
                         return false;
                     }
                 }
                 Ok(Outcome::Rejected(m)) => {
-                    ctx.violation(&format!("a lattice point was rejected: {m} -- {}", p.describe()), &json!({"engine": "E1", "macro": p.e1_macro(), "attr": attr, "item": p.item()}));
+                    ctx.violation(&format!("a lattice point was rejected: {m} -- {}", p.describe()), &json!({"engine": "E1", "macro": p.e1_macro(), "attr": attr, "item": item}));
                     return false;
                 }
                 Ok(Outcome::Panic(m)) => crate::ev::inconclusive(&format!("macro panicked on a lattice point: {m}")),
@@ -257,7 +262,8 @@ fn e2_case(p: &Point, id: &str) -> String {
     // one module per lattice point; probes are uniform expressions that compile whether or not the mocks exist:
     // glob-imported fallbacks `MockTheTrait` / `TheMock` are shadowed by the items mockall / unimock generate next to the trait
     let mac = if p.export_macro { "::entrait::entrait_export" } else { "::entrait::entrait" };
-    let attr = p.attr(id.len());
+    let order: usize = id.trim_start_matches(|c: char| !c.is_ascii_digit()).parse().unwrap_or(0);
+    let attr = p.attr(order);
     let mut s = String::from("#![allow(warnings)]\nuse ::core::marker::PhantomData;\n");
     // (the API of a single fn is a unit struct `TheMock`; for modules and traits it is a module `TheMock` of per-method structs)
     let (fb, api_ty) = if p.target == "fn" || p.target == "fn_concrete" {
@@ -272,8 +278,8 @@ fn e2_case(p: &Point, id: &str) -> String {
             fb.replace('\n', "\n    "),
             probes.replace('\n', "\n    ")
         )),
-        "fn_concrete" => s.push_str(&format!("pub struct Conf;\n{fb}#[{mac}({attr})]\n{}\n{probes}", p.item())),
-        _ => s.push_str(&format!("{fb}#[{mac}({attr})]\n{}\n{probes}", p.item())),
+        "fn_concrete" => s.push_str(&format!("pub struct Conf;\n{fb}#[{mac}({attr})]\n{}\n{probes}", p.item(order))),
+        _ => s.push_str(&format!("{fb}#[{mac}({attr})]\n{}\n{probes}", p.item(order))),
     }
     s.push_str("struct Probe<T>(PhantomData<T>);\ntrait Fallback { fn has(&self) -> bool { false } }\nimpl<T> Fallback for Probe<T> {}\nimpl<T: TheTrait> Probe<T> { fn has(&self) -> bool { true } }\n");
     // the unimock derivation is observed through the named API when there is one, else (traits) through `Unimock: TheTrait`
